@@ -88,6 +88,13 @@ PLAN["C04"] = {
                     "allocation bound per frame: 1 MiB + 64 x frame length (forwarder), 4x that for the engine's three passes"],
     "level_text": "Seeded search over corrupted traffic delivered to the real receive paths in a deterministic simulation; invariants per frame: no panic, bounded allocation, bounded steps, no state change on undecodable frames. Samples the byte-sequence space through structure-aware mutation; not a proof, and scoped to decoders a simulated component reaches.",
 }
+PLAN["C17"] = {
+    "parts": [{"engine": "mgmtsim", "quick": 6000, "thorough": 600000}],
+    "nontrivial": ">=1 state-changing command was accepted and >=1 command was refused or unauthorised",
+    "fault_note": "management faults: ControlParameters missing, truncated or with disagreeing lengths (corruption), unknown modules/verbs, commands under foreign prefixes, from non-local faces, with a consumer-chosen next hop aimed at the internal face; endpoint fault: face destroyed in mid-history (later commands name it, routes through it are cleaned up)",
+    "components": {"real": ["fw/mgmt Thread.Run and all six modules", "fw/face internal transport + its NDNLP link service", "fw/face NDNLP link services of the application faces (send/receive goroutines)", "fw/fw Thread.Run (1-2 threads), PIT/CS", "fw/table FIB (nametree/hashtable), RIB, strategy table", "fw/face FaceTable", "std/ndn/mgmt_2022 codecs"], "stub": ["transports of application faces (SimTransport)", "faces/create is exercised only on URIs that must be refused (a successful create dials real sockets)"]},
+    "assumptions": ["RIB commands use the /r name space and FIB commands the /f name space (the RIB rewrites the FIB entry of a prefix it manages)", "an MTU below 64 bytes cannot carry a packet and must be refused; 64..127 is left open; >=128 must be accepted", "a requester never destroys its own face or the internal face", "NLSR readvertisement is off"],
+}
 
 NOT_APPLICABLE = [
     {"property_id": "C03", "reason": "encode->decode round trip is a pure function of the packet value and a byte segmentation: no schedule, clock, fault or shared state for a simulator to own"},
@@ -97,6 +104,7 @@ NOT_APPLICABLE = [
 ]
 
 ENGINES = [
+    {"name": "mgmtsim", "path": "sim/mgmtsim", "serves_properties": ["C17"], "kind_free_text": "whole forwarder (management thread, internal face, forwarding threads, link services) in one synctest bubble; command histories against a command-level reference model"},
     {"name": "rxsim", "path": "sim/facesim/rx.go", "serves_properties": ["C04"], "kind_free_text": "hostile link (structure-aware corruption) in front of the real forwarder receive path (link service, reassembly, dispatch, forwarding threads) and the application engine"},
     {"name": "linksim", "path": "sim/facesim/link.go", "serves_properties": ["C10"], "kind_free_text": "two real link services joined by a simulated datagram link that permutes, drops and duplicates frames"},
     {"name": "streamsim", "path": "sim/facesim/stream.go", "serves_properties": ["C11"], "kind_free_text": "scripted stream socket (chunking, transient errors, EOF) under the real stream framing loops"},
